@@ -59,7 +59,9 @@ pub fn install_quiet_panic_hook() {
             .map(|l| format!("{}:{}", l.file(), l.line()))
             .unwrap_or_default();
         if loc.contains("harness/src") || (loc.starts_with("src/") && !loc.starts_with("src/linux") && !loc.starts_with("src/mem_writer") && !loc.starts_with("src/dir_section")) {
-            eprintln!("vh: HARNESS panic at {loc}: {info}");
+            if !format!("{info}").contains("injected destination panic") {
+                eprintln!("vh: HARNESS panic at {loc}: {info}");
+            }
         }
         LAST_PANIC_LOC.with(|c| *c.borrow_mut() = loc);
     }));
